@@ -192,6 +192,89 @@ pub fn main(args: &[String]) {
             }
             println!("{}", results.lock().unwrap().join(" "));
         }
+        // rereg-forced <infix|prefix|postfix> : an operator is registered again while another thread evaluates an
+        // expression using it. The replaced handler owns a guard whose destructor — user code that runs somewhere inside
+        // or right after the second registration — wakes the evaluating thread and waits for it (bounded). The evaluation
+        // must see the old or the new registration, never "no such operator".
+        "rereg-forced" => {
+            struct Guard(Arc<AtomicBool>, Arc<AtomicBool>);
+            impl Drop for Guard {
+                fn drop(&mut self) {
+                    self.0.store(true, Ordering::SeqCst);
+                    let t0 = Instant::now();
+                    while !self.1.load(Ordering::SeqCst) && t0.elapsed() < Duration::from_millis(300) {
+                        std::thread::sleep(Duration::from_millis(1));
+                    }
+                }
+            }
+            let kind = args[1].clone();
+            let dropping = Arc::new(AtomicBool::new(false));
+            let evaluated = Arc::new(AtomicBool::new(false));
+            let g = Arc::new(Guard(dropping.clone(), evaluated.clone()));
+            let add = |k: i64| move |v: Value| -> expression_engine::Result<Value> { Ok(Value::from(v.integer()? + k)) };
+            let (prog, reg): (&str, Box<dyn Fn(i64, Option<Arc<Guard>>)>) = match kind.as_str() {
+                "infix" => ("1 seedjoin 2", Box::new(move |k, g| {
+                    register_infix_op("seedjoin", 110, InfixOpType::CALC, InfixOpAssociativity::LEFT,
+                        Arc::new(move |a, b| { let _g = &g; Ok(Value::from(a.integer()? + b.integer()? + k)) }))
+                })),
+                "prefix" => ("seedneg 3", Box::new(move |k, g| {
+                    let f = add(k);
+                    register_prefix_op("seedneg", Arc::new(move |a| { let _g = &g; f(a) }))
+                })),
+                _ => ("3 seedinc", Box::new(move |k, g| {
+                    let f = add(k);
+                    register_postfix_op("seedinc", Arc::new(move |a| { let _g = &g; f(a) }))
+                })),
+            };
+            reg(100, Some(g));
+            let prog2 = prog.to_string();
+            let (d2, e2) = (dropping.clone(), evaluated.clone());
+            let t = std::thread::spawn(move || {
+                let t0 = Instant::now();
+                while !d2.load(Ordering::SeqCst) && t0.elapsed() < Duration::from_millis(2000) {
+                    std::thread::sleep(Duration::from_millis(1));
+                }
+                let r = show(execute(&prog2, Context::new()));
+                e2.store(true, Ordering::SeqCst);
+                r
+            });
+            reg(200, None);
+            let during = t.join().unwrap_or_else(|_| "panic".into());
+            println!("during={} after={}", during, show(execute(prog, Context::new())));
+        }
+        // rereg-race <iters> : built-in operators are registered again and again (with handlers equal to the built-in
+        // ones) while four threads evaluate expressions using them: every evaluation must give the built-in result
+        "rereg-race" => {
+            let iters: usize = args[1].parse().unwrap();
+            let _ = execute("1", Context::new());
+            let stop = Arc::new(AtomicBool::new(false));
+            let stop2 = stop.clone();
+            let registrar = std::thread::spawn(move || {
+                while !stop2.load(Ordering::SeqCst) {
+                    register_infix_op("+", 110, InfixOpType::CALC, InfixOpAssociativity::LEFT, Arc::new(|a, b| Ok(Value::from(a.decimal()? + b.decimal()?))));
+                    register_prefix_op("-", Arc::new(|a| Ok(Value::from(-a.decimal()?))));
+                    register_postfix_op("++", Arc::new(|a| Ok(Value::from(a.decimal()? + rust_decimal::Decimal::ONE))));
+                }
+            });
+            let mut hs = Vec::new();
+            for _ in 0..4 {
+                hs.push(std::thread::spawn(move || {
+                    for _ in 0..iters {
+                        for (p, want) in [("1 + 2", "ok:Number(3)"), ("- 3", "ok:Number(-3)"), ("4 ++", "ok:Number(5)")] {
+                            let r = show(execute(p, Context::new()));
+                            if r != want {
+                                return format!("{}=>{}", hex(p), r);
+                            }
+                        }
+                    }
+                    "ok".to_string()
+                }));
+            }
+            let out: Vec<String> = hs.into_iter().map(|h| h.join().unwrap_or_else(|_| "panic".into())).collect();
+            stop.store(true, Ordering::SeqCst);
+            let _ = registrar.join();
+            println!("{}", out.join(" "));
+        }
         _ => println!("badsched"),
     }
 }
